@@ -144,7 +144,13 @@ func TestVerifBoundedWalletDBConformance(t *testing.T) {
 			case 8:
 				trace += "SaveQuotes;"
 				db.SaveMintQuote(MintQuote{QuoteId: fmt.Sprintf("mq%d", rng.n(3)), Mint: urls[0], Amount: 5})
-				db.SaveMeltQuote(MeltQuote{QuoteId: fmt.Sprintf("lq%d", rng.n(3)), Mint: urls[0], Amount: 5})
+				lq := fmt.Sprintf("lq%d", rng.n(3))
+				ck := []string{"", ids[0], ids[1]}[rng.n(3)]
+				if err := db.SaveMeltQuote(MeltQuote{QuoteId: lq, Mint: urls[0], Amount: 5, ChangeKeysetId: ck}); err != nil {
+					fail(trace, "SaveMeltQuote: "+err.Error())
+				} else if got := db.GetMeltQuoteById(lq); got == nil || got.QuoteId != lq || got.ChangeKeysetId != ck {
+					fail(trace, fmt.Sprintf("GetMeltQuoteById(%s) = %+v after SaveMeltQuote with ChangeKeysetId %q", lq, got, ck))
+				}
 			case 9: // UpdateKeysetMintURL: keysets move to another bucket with their counters
 				from := urls[rng.n(len(urls))]
 				to := "http://moved-" + strconv.Itoa(s) + "-" + strconv.Itoa(o) + ".example"
